@@ -318,8 +318,8 @@ SELFTEST = [
     dict(id='template-cells-swapped', file='tools/zonedb/argenerator.py',
          find='    {inMonth} /*inMonth*/,\n    {onDayOfWeek} /*onDayOfWeek*/,', replace='    {onDayOfWeek} /*onDayOfWeek*/,\n    {inMonth} /*inMonth*/,', rule='R3-order'),
     dict(id='suffix-constant-collides', file='src/ace_time/internal/ZoneContext.inc', find='kSuffixS = 0x10', replace='kSuffixS = 0x01', rule='R3'),
-    dict(id='save-guard-widened', file='tools/tzdb/transformer.py', find='                if delta_code < 0 or delta_code > 15:',
-         replace='                if delta_code < 0 or delta_code > 16:', rule='R4', construct='_create_rules_with_expanded_delta_offset'),
+    dict(id='save-guard-widened', file='tools/tzdb/transformer.py', regex=True, find=r'\n {16}if delta_code < 0 or delta_code > 15:',
+         replace=r'\n                if delta_code < 0 or delta_code > 16:', rule='R4', construct='_create_rules_with_expanded_delta_offset'),
     dict(id='fixed-rules-guard-removed', file='tools/tzdb/transformer.py', regex=True,
          find=r"                    delta_code = div_to_zero\(\n                        rules_delta_seconds_truncated, 900\) \+ 4\n                    if delta_code < 0 or delta_code > 15:",
          replace="                    delta_code = 4\\n                    if delta_code < 0 or delta_code > 15:", rule='R4', construct='_create_zones_with_rules_expansion'),
